@@ -5,7 +5,7 @@ LEVEL = "model_checking"
 
 def relevant(d, hist):
     last = hist[-1]
-    if last["op"]["k"] not in ("insert", "update", "delete", "truncate"):
+    if last["op"]["k"] not in R.DML:
         return False
     if d["kind"] == "state" and d.get("basis") == "model_post" and not last["ok"] and set(d.get("queries", [])) == {"count"}:
         return True
@@ -20,11 +20,14 @@ def relevant(d, hist):
 
 def signature(d, hist):
     op = hist[-1]["op"]
+    uc = R.upsert_class(hist)
+    if uc:
+        return "%s:upsert:%s" % ("count_differs_from_visible_rows" if d["kind"] == "index_vs_scan" else d["kind"], uc)
     if d["kind"] == "index_vs_scan":
         if op["k"] == "insert" and len(op["rows"]) > 1 and not hist[-1]["ok"]:
             return "count_differs_from_visible_rows_after_failed_multi_row_insert"
         return "count_differs_from_visible_rows:%s:%s" % (op["k"], ",".join(R.features(hist)) or "-")
-    return "%s:%s:%s" % (d["kind"], op["k"] + ("(" + op.get("c", "") + ")" if op["k"] == "update" else ""), ",".join(R.features(hist)) or "-")
+    return "%s:%s:%s" % (d["kind"], R.opname(op), ",".join(R.features(hist)) or "-")
 
 
 def wide_phase(chk):
@@ -59,6 +62,8 @@ def run(chk):
     chk.cov = cov
     chk.cov["returning"] = st
     chk.mark("returning")
+    chk.cov["upsert"] = relrun.upsert_phase(chk, relevant, signature, schema="pk")
+    chk.mark("upsert")
     wide_phase(chk)
 
 
